@@ -177,15 +177,44 @@ func init() {
 		if g.err != nil {
 			return Tuple{ex.i64(0), g.err}
 		}
-		if len(g.buf.B)+len(s.B) > bufioSize {
-			ex.unsupported(fr, "bufio write larger than the 4096-byte buffer")
+		// as bufio does: fill the buffer, flush it, go on with the rest (the underlying
+		// writers here do not implement io.StringWriter, so there is no direct large write)
+		rest := s.B
+		nn := 0
+		for len(rest) > bufioSize-len(g.buf.B) && g.err == nil {
+			n := bufioSize - len(g.buf.B)
+			g.buf = &Str{B: append(append([]*Term(nil), g.buf.B...), rest[:n]...)}
+			models["(*bufio.Writer).Flush"](ex, fr, []Value{a[0]})
+			nn += n
+			rest = rest[n:]
 		}
-		nb := append(append([]*Term(nil), g.buf.B...), s.B...)
-		g.buf = &Str{B: nb}
+		if g.err != nil {
+			return Tuple{ex.i64(int64(nn)), g.err}
+		}
+		g.buf = &Str{B: append(append([]*Term(nil), g.buf.B...), rest...)}
 		return Tuple{ex.i64(int64(len(s.B))), &Iface{}}
 	}
 	m["(*bufio.Writer).Write"] = func(ex *Exec, fr *frame, a []Value) Value {
+		p := a[0].(*Ptr)
+		if p.Obj == nil {
+			ex.goPanicRuntime("nil pointer dereference")
+		}
+		g := p.Obj.Ghost.(*writerGhost)
 		sl := a[1].(*Slice)
+		if g.err == nil && len(g.buf.B) == 0 && sl.Len > bufioSize {
+			// large write with an empty buffer goes straight to the underlying writer
+			res := ex.invoke(fr, g.wr, "Write", sl).(Tuple)
+			n := ex.concreteInt(fr, res[0], "Write n")
+			err := res[1]
+			if n < sl.Len && isNilIface(err) {
+				err = ex.mkError("short write")
+			}
+			if !isNilIface(err) {
+				g.err = err
+				return Tuple{ex.i64(int64(n)), err}
+			}
+			return Tuple{ex.i64(int64(n)), &Iface{}}
+		}
 		s := &Str{}
 		for i := 0; i < sl.Len; i++ {
 			s.B = append(s.B, sl.Arr.V.(*ArrayV).E[sl.Off+i].(*Term))
@@ -592,5 +621,52 @@ func init() {
 			return ex.B.Bool(was)
 		}
 		return ex.B.False
+	}
+}
+
+// ---- sync.Pool ------------------------------------------------------------------
+// Get hands back the most recently Put object when there is one (the real pool may
+// also drop objects; recycling is the behaviour that can matter to a caller), else New().
+
+type poolGhost struct{ items []Value }
+
+func (ex *Exec) pool(p *Ptr) *poolGhost {
+	if p.Obj == nil {
+		ex.goPanicRuntime("nil pointer dereference")
+	}
+	k := "pool:" + ptrKey(p)
+	if g, ok := ex.ghost[k]; ok {
+		return g.(*poolGhost)
+	}
+	g := &poolGhost{}
+	ex.ghost[k] = g
+	return g
+}
+
+func init() {
+	models["(*sync.Pool).Get"] = func(ex *Exec, fr *frame, a []Value) Value {
+		p := a[0].(*Ptr)
+		g := ex.pool(p)
+		ex.yieldPoint("lock")
+		if n := len(g.items); n > 0 {
+			v := g.items[n-1]
+			g.items = g.items[:n-1]
+			return v
+		}
+		st := ex.load(p).(*StructV)
+		newF := st.F[len(st.F)-1] // New func() any is the last field
+		if f, ok := newF.(*Func); ok && f != nil && f.Fn != nil {
+			return ex.call(fr, f, nil, nil)
+		}
+		return &Iface{}
+	}
+	models["(*sync.Pool).Put"] = func(ex *Exec, fr *frame, a []Value) Value {
+		g := ex.pool(a[0].(*Ptr))
+		ex.yieldPoint("lock")
+		if i, ok := a[1].(*Iface); ok && i.T == nil {
+			return nil
+		}
+		g.items = append(g.items, a[1])
+		return nil
 	}
 }
